@@ -2,7 +2,7 @@
 # confirm_mutant.sh <seeded dir> <lib test filter...> — independent confirmation in the scratch worktree /tmp/brk-C13:
 # demo passes without the patch, fails with it, and the touched modules' existing tests still pass with it.
 D="$1"; shift
-W=/tmp/brk-C13
+W=${CONFIRM_WT:-/tmp/brk-C13}
 cd $W || exit 2
 git checkout -q -- . ; rm -f sdk/tests/demo_verif.rs
 # pick the newest base commit the patch applies to
